@@ -372,7 +372,9 @@ def run_harness(exe, lines, args=(), chunk=None, timeout=900):
         chunk = max(50, min(5000, len(lines) // (NPROC * 2) + 1))
     parts = [lines[i:i + chunk] for i in range(0, len(lines), chunk)]
     with ThreadPoolExecutor(NPROC) as ex:
-        outs = list(ex.map(lambda pl: run_harness_chunk(exe, pl, args, timeout), parts))
+        # every op has its own watchdog inside the harness (--op-timeout, default 90 s), so the limit for a whole chunk only has to
+        # catch a harness that is stuck outside an op; it must not be shorter than what the ops of the chunk may legitimately take
+        outs = list(ex.map(lambda pl: run_harness_chunk(exe, pl, args, timeout if "--threads" in args else max(timeout, 100 * len(pl))), parts))
     res = []
     for o in outs:
         res += o
@@ -493,6 +495,8 @@ class Run:
         d = cmrbuild.build(flavour, want_tools=cli)
         exe = os.path.join(d, "cmrh")
         hargs = harness_args(flavour, args) if not cli else ["cli"]
+        if not cli and self.tier == "thorough" and "--op-timeout" not in hargs:
+            hargs += ["--op-timeout", "300"]      # the thorough tier runs instances several times larger, often next to other checks
         if cli:
             import cli as clilayer
             env = dict(os.environ); env.update(SAN_ENV)
